@@ -190,3 +190,30 @@ func H_C08_invalid() {
 	VAssert(syn, "invalid: the failure is classified as a syntax/compile error: "+src)
 	VReach("end")
 }
+
+// C08.loadonly — programs that must load (and are not run): endless loops with empty bodies right after jumping
+// statements, where the compiler's jump threading walks chains of jumps.  A compiler that never returns shows
+// up as an exceeded path budget (inconclusive), a wrong rejection as a violation.
+var c08LoadOnly = []string{
+	"while true do end",
+	"if x then x = 1 end while true do end",
+	"if c then x = 1 else x = 2 end repeat until false",
+	"for i = 1, 3 do if i == 2 then break end end while true do end",
+	"::top:: goto top",
+	"do goto a end ::a:: goto b ::b:: while true do end",
+	"while x do if y then break end end repeat until false",
+	"local function f() while true do end end if x then return end while true do end",
+	"goto l1 ::l1:: goto l2 ::l2:: goto l3 ::l3:: goto l4 ::l4:: goto l5 ::l5:: goto l6 ::l6:: goto l7 ::l7:: while true do end",
+}
+
+//verif:harness prop=C08,C07 tier=quick bounds="9 programs with empty endless loops after conditionals, loops with break and goto chains (<= 7 hops); loaded, checked for well-formedness, not run"
+func H_C08_loadonly() {
+	src := c08LoadOnly[VChoice(len(c08LoadOnly))]
+	L := newL(Options{}, BaseLibName)
+	fn, err := L.LoadString(src)
+	VAssert(err == nil, "loadonly: a valid program loads: "+src)
+	if err == nil {
+		VAssert(wfProto(fn.Proto) == "", "loadonly: the compiled prototype is well-formed: "+src+" ["+wfProto(fn.Proto)+"]")
+	}
+	VReach("end")
+}
